@@ -202,7 +202,12 @@ def gen_plan(rng, index, tier):
             steps.append(_mk_step(1, rng.choice(actors)["name"], pt, "abort", kind=rng.choice(list(enginea.ABORT_KINDS))))
         if cfg.get("fuelHandler") and rng.random() < 0.5:
             steps.append({"life": 1, "actor": "fuelHandler", "hook": "BOC", "cycle": rng.randrange(n), "op": "swap", "a": rng.randrange(1000), "b": rng.randrange(1000)})
-    cfg["reader"] = {"loads": rng.randint(1, 3), "hist_objs": rng.randint(1, 4), "pick": rng.randrange(10**6), "split": rng.random() < 0.4, "postLoad": rng.random() < 0.3}
+    cfg["reader"] = {"loads": rng.randint(1, 3), "hist_objs": rng.randint(1, 4), "pick": rng.randrange(10**6), "split": rng.random() < 0.5, "postLoad": rng.random() < 0.3}
+    if cfg["reader"]["split"] and cfg.get("fuelHandler") and n >= 2:
+        # (the split oracle will keep the last cycle only and ask the split object for histories:
+        # make sure the order of the assemblies differs between the first and the last cycle)
+        for _ in range(2):
+            steps.append({"life": 0, "actor": "fuelHandler", "hook": "BOC", "cycle": n - 1, "op": "swap", "a": rng.randrange(1000), "b": rng.randrange(1000)})
     if rng.random() < 0.1:
         # separately-oracled configuration (DESIGN.md 3.6): the N-th dataset creation after a plan-chosen
         # hook fails with ENOSPC, i.e. the failure is inside the database writer itself
@@ -908,6 +913,46 @@ def check_split(path, log_entries, scratch, pick, probes, cs=None):
         if keys != listed:
             raise OracleFailure("C06.split", f"the split file lists the steps {listed}, a history query on it answers for the steps {keys}", {"what": "split-history-keys"})
     probes["split_checked"] += 1
+    if _group_time(plain[-1])[0] > 0:
+        check_split_same_object(path, log_entries, plain, scratch, cs, probes)
+
+
+def check_split_same_object(path, log_entries, plain, scratch, cs, probes):
+    """One Database object: histories are asked, the file is split so that the last cycle's steps take
+    over the names of the first cycle's, and histories are asked again of that same object."""
+    import shutil
+
+    from armi.bookkeeping.db.database import Database
+
+    keep = [nm for nm in plain if _group_time(nm)[0] == _group_time(plain[-1])[0]]
+    work = os.path.join(scratch, "split2.h5")
+    shutil.copyfile(path, work)
+    db = Database(work, "a")
+    db.open()
+    try:
+        r_pre = db.load(*_group_time(plain[-1]), cs=cs, allowMissing=True)
+        db.getHistories(list(r_pre.core), ["vSent"])
+        db.getHistories([b for a in r_pre.core for b in a][:40], ["vSent"])
+        db.splitDatabase([_group_time(nm) for nm in keep], "-all2")
+        minc_ = _group_time(keep[0])[0]
+        src_of = {(_group_time(nm)[0] - minc_, _group_time(nm)[1]): nm for nm in keep}
+        listed_ = sorted((int(c), int(n)) for c, n in db.genTimeSteps())
+        r_post = db.load(*listed_[-1], cs=cs, allowMissing=True)
+        hh_ = db.getHistories(list(r_post.core), ["vSent"], listed_)
+        hh_.update(db.getHistories([b for a in r_post.core for b in a][:40], ["vSent"], listed_))
+        probes["history_through_the_same_object_before_and_after_a_split"] += 1
+        for obj in hh_:
+            sn_ = int(obj.p.serialNum)
+            for t_, v_ in hh_[obj]["vSent"].items():
+                t_ = (int(t_[0]), int(t_[1]))
+                if t_ not in src_of or sn_ not in log_entries[src_of[t_]]["sent"]:
+                    continue
+                want_ = log_entries[src_of[t_]]["sent"].get(sn_)
+                v_ = None if v_ is None else float(v_)
+                if v_ != want_:
+                    raise OracleFailure("C06.split", f"history asked of the database object that was split: serial {sn_} at kept step {t_} (was {src_of[t_]}) = {v_}, written {want_}", {"what": "split-history-same-object"})
+    finally:
+        db.close()
 
 
 def _hash_without(group, skip):
